@@ -120,7 +120,7 @@ pub fn main(seed: u64, tier: &str, only: Option<&str>) {
         run_wasm("replay", &out::unhex(o), &mut rng, thorough, &mut stats);
         return;
     }
-    let n = if thorough { 3000 } else { 300 };
+    let n = if thorough { 3000 * crate::out::thorough_scale() } else { 300 };
     for case in 0..n {
         let mut rng = Rng::new(seed ^ 0xfea7, case as u64);
         // minimal feature use: pure MVP, or MVP plus exactly one proposal, or a random mix
